@@ -205,9 +205,7 @@ fn extend_literal_func(len: usize, kind: &oq3_lexer::LiteralKind) -> (&str, Synt
         } => {
             // FIXME. Both errors at once are possible but not handled.
             if !terminated {
-                if !consecutive_underscores {
-                    err = "Missing trailing `\"` symbol to terminate the bitstring literal";
-                }
+                err = "Missing trailing `\"` symbol to terminate the bitstring literal";
             } else if consecutive_underscores {
                 err = "Consecutive underscores not allowed in bitstring literal";
             }
